@@ -433,6 +433,7 @@ type Contract struct {
 	Pure     bool // modifies nothing (no clause needed)
 	Trusted  bool // contract assumed, body not verified
 	MayPanic bool // callers cannot rely on absence of panic
+	DeadPoints int // number of blocks/returns that are legitimately unreachable
 	NoBody   bool // library function: nothing to verify
 	Loops    map[string]*LoopSpec
 	Sites    []*SiteAssert
@@ -472,7 +473,7 @@ func newContractSet() *ContractSet {
 
 var clauseKeywords = map[string]bool{
 	"func": true, "props": true, "requires": true, "ensures": true, "modifies": true,
-	"pure": true, "trusted": true, "maypanic": true, "loop": true, "site": true, "let": true,
+	"pure": true, "trusted": true, "maypanic": true, "deadpoints": true, "loop": true, "site": true, "let": true,
 	"define": true, "global": true, "ghost": true, "skip": true, "note": true, "package": true, "thorough": true,
 }
 
@@ -657,6 +658,12 @@ func (cs *ContractSet) parseContractFile(path, pkgPath string, goFile bool) erro
 				}
 			case "maypanic":
 				cur.MayPanic = true
+			case "deadpoints":
+				n, err := strconv.Atoi(strings.Fields(rest)[0])
+				if err != nil {
+					return fail(err)
+				}
+				cur.DeadPoints = n
 			case "skip":
 				for _, f := range strings.Fields(rest) {
 					cur.Skip[f] = true
